@@ -34,26 +34,65 @@ def gen_case(rng, tier):
     order = [gi for gi, s in enumerate(sizes) for _ in range(s)]
     rng.shuffle(order)
     items = [{'t': [gi, rng.choice([0, 1, 2, 3, 4, 5, 6, 7, 9, 12, -1, -4])]} for gi in order]
-    return {'kind': 'dual', 'term': term, 'items': items}
+    case = {'kind': 'dual', 'term': term, 'items': items}
+    # the keyed context: group_by (fresh slot per group) or a context that serves successive groups from the SAME slot
+    # (segments of split, tumbling windows of roll) — the property quantifies over every multiplexed source
+    c = rng.random()
+    if c < 0.25:
+        case['ctx'] = 'split'
+    elif c < 0.45:
+        case['ctx'] = 'roll'
+        case['w'] = rng.choice([1, 2, 3, 4, 5])
+    return case
 
 
 def cases(tier, rng):
     yield {'kind': 'dual', 'term': [['take', 2], ['count', False]], 'items': [{'t': [0, 5]}, {'t': [1, 6]}, {'t': [0, 7]}, {'t': [0, 8]}, {'t': [1, 9]}]}
     yield {'kind': 'dual', 'term': [['map', ['none_if_mod', 2, 0]], ['assert1', 'ne']], 'items': [{'t': [0, 2]}, {'t': [0, 2]}, {'t': [0, 3]}]}
     yield {'kind': 'dual', 'term': [['filter', ['truthy_int']], ['count', False]], 'items': [{'t': [0, 1]}, {'t': [0, 2]}, {'t': [0, 3]}]}
+    # tee_map with branches of unequal cadence inside contexts that serve successive groups from the same slot
+    odd = ['filter', ['mod_eq', 2, 1]]
+    for join in ('zip', 'combine_latest', 'merge'):
+        for br in ([[odd], []], [[], [odd]], [[['last']], [['first']]], [[['first']], [['last']]], [[odd], [], [['count', True]]]):
+            for ctx in ('split', 'roll'):
+                its = [{'t': [g, v]} for g, v in [(0, 2), (0, 3), (1, 4), (1, 6), (1, 7), (0, 1), (0, 8), (1, 5), (1, 5)]]
+                c = {'kind': 'dual', 'term': [['tee', join, br]], 'items': its, 'ctx': ctx}
+                if ctx == 'roll':
+                    c['w'] = 3
+                yield c
     n = {'quick': 500, 'thorough': 10000, 'search': 600}[tier]
     for _ in range(n):
         yield gen_case(rng, tier)
 
 
 def mux_term(case):
-    return [['group_by', ['nth', 0], [['map', ['nth', 1]]] + case['term']]]
+    inner = [['map', ['nth', 1]]] + case['term']
+    ctx = case.get('ctx', 'group_by')
+    if ctx == 'split':
+        return [['split', ['nth', 0], inner]]
+    if ctx == 'roll':
+        return [['roll', case['w'], case['w'], inner]]
+    return [['group_by', ['nth', 0], inner]]
 
 
 def groups(case):
+    """the groups of the keyed run, in the order their lifetimes are created: label -> items"""
+    ctx = case.get('ctx', 'group_by')
     gs = {}
-    for it in case['items']:
-        gs.setdefault(it['t'][0], []).append(it['t'][1])
+    if ctx == 'split':          # maximal runs of equal group id, all served by the same inner key
+        prev, n = object(), -1
+        for it in case['items']:
+            if it['t'][0] != prev:
+                n += 1
+                prev = it['t'][0]
+            gs.setdefault('s%d' % n, []).append(it['t'][1])
+    elif ctx == 'roll':         # tumbling windows, all served by the same inner key
+        w = case['w']
+        for i, it in enumerate(case['items']):
+            gs.setdefault('w%d' % (i // w), []).append(it['t'][1])
+    else:
+        for it in case['items']:
+            gs.setdefault(it['t'][0], []).append(it['t'][1])
     return gs
 
 
@@ -76,6 +115,17 @@ def real(case):
                 ch = muxreal.trunc_chunks(p['chunks'])
                 if muxprop.has_fatal(ch) or not muxprop.items_of(ch):
                     r['empty_input'] = True
+    # a user function that raises in the middle of the pipeline is C13's subject, not C01's; on the plain path a later
+    # take(0)/first can mask it (RxPY never subscribes upstream / unsubscribes early) while the keyed path evaluates every
+    # stage eagerly.  So when the keyed run ends with an error although no full plain run raises, the precondition
+    # "no user function raises" is evaluated on the plain run of every prefix of the pipeline.
+    if muxprop.has_fatal(r['chunks']) and not any(muxprop.has_fatal(pl) for pl in r['plain'].values()):
+        for i in range(1, len(case['term'])):
+            for g, xs in groups(case).items():
+                p = muxprop.quiet(muxreal.run_plain, case['term'][:i], xs)
+                if muxprop.has_fatal(muxreal.trunc_chunks(p['chunks'])):
+                    r['empty_input'] = True
+                    return r
     return r
 
 
@@ -111,6 +161,10 @@ def compare(case, r, m):
     return None
 
 
+def dec_item(h):
+    return h['t'][1] if isinstance(h, dict) and 't' in h else h
+
+
 def oracle(case, r):
     if 'harness_exc' in r:
         return 'real code raised: ' + r['harness_exc']
@@ -121,10 +175,9 @@ def oracle(case, r):
     if go is None:
         return None
     gs = groups(case)
-    order = []
-    for it in case['items']:
-        if it['t'][0] not in order:
-            order.append(it['t'][0])
+    order = list(gs.keys())     # insertion order = order in which the lifetimes are created
+    if len(go) != len(order) or any([dec_item(h) for h in head] != gs[g] for g, (head, _) in zip(order, go)):
+        return None             # the context operator itself misbehaves: that is C04/C05/C06's finding, not C01's
     mux_fatal = muxprop.has_fatal(r['chunks'])
     if r.get('empty_input'):
         return 'precondition-not-met'    # first / last / mean(reduce) applied to an empty sequence (possibly masked on the plain path)
@@ -152,6 +205,7 @@ def tags(case, r):
     t = muxprop.tags({'kind': 'dual', 'term': case['term'], 'items': case['items']}, r)
     t.append('groups=%d' % len(groups(case)))
     t.append('stages=%d' % len(case['term']))
+    t.append('ctx=%s' % case.get('ctx', 'group_by'))
     return t
 
 
